@@ -165,3 +165,25 @@ func sideSumRule(c *core.Check, r *core.Rule, pkg string, files map[string]bool,
 		r.Unknown("box-edge sums in "+pkg, "-", fmt.Sprintf("%d sums found, %d on the tree this rule was written for", len(sums), floor))
 	}
 }
+
+// argNameRule registers one obligation per pair of same-typed arguments named after the callee's parameters.
+func argNameRule(c *core.Check, r *core.Rule, pkg string, files map[string]bool, floor int) {
+	p := c.Prog
+	pairs := p.ArgPairs(pkg, func(f string) bool { return files == nil || files[f] })
+	seen := map[string]int{}
+	for _, ap := range pairs {
+		txt := ap.Text
+		if len(txt) > 100 {
+			txt = txt[:100] + "…"
+		}
+		key := fmt.Sprintf("%s.%s | %s | arguments %d,%d", pkg, ap.Func, txt, ap.I+1, ap.J+1)
+		seen[key]++
+		if seen[key] > 1 {
+			key = fmt.Sprintf("%s #%d", key, seen[key])
+		}
+		r.Cond(!ap.Crossed, key, p.Pos(ap.Call.Pos()), "each argument carries the name of the parameter it is passed for", "the two arguments carry each other's parameter names: they are passed in the wrong order")
+	}
+	if len(pairs) < floor {
+		r.Unknown("named argument pairs in "+pkg, "-", fmt.Sprintf("%d pairs found, %d on the tree this rule was written for", len(pairs), floor))
+	}
+}
